@@ -4,7 +4,7 @@ Require Import Cirbo.Model.Base Cirbo.Model.Gate Cirbo.Model.Den Cirbo.Model.Cir
         Cirbo.Model.Connect Cirbo.Model.Eval Cirbo.Model.Sem Cirbo.Model.WF.
 Require Import Cirbo.Proofs.DictFacts Cirbo.Proofs.WFBase Cirbo.Proofs.WFSimple Cirbo.Proofs.WFEmplace
         Cirbo.Proofs.WFRemove Cirbo.Proofs.WFRename Cirbo.Proofs.WFRename2 Cirbo.Proofs.WFReplaceSub1
-        Cirbo.Proofs.SemFacts Cirbo.Proofs.SemExt Cirbo.Proofs.SemRename.
+        Cirbo.Proofs.SemFacts Cirbo.Proofs.SemExt Cirbo.Proofs.SemRenameGate.
 
 (* ------------------------------------------------------------------ *)
 (* the composite renaming: the renamings of the mapping applied one after the other *)
